@@ -471,7 +471,8 @@ class Simplex:
                     self.basic.add(s)
                     self.non_basic.add(var_name)
                     if var_name not in self.mapping:
-                        self.mapping.update({var_name : Pair(0, 0), s : Pair(0, 0)})
+                        self.mapping[var_name] = Pair(0, 0)
+                    self.mapping[s] = coeff * self.mapping[var_name]
                     self.bound[s] = (Pair(-math.inf, 0), Pair(math.inf, 0))
                     if var_name not in self.nbasic_basic:
                         self.nbasic_basic[var_name] = {s}
